@@ -892,9 +892,16 @@ ElemNumber::getNumberFormatter(StylesheetExecutionContext&  executionContext) co
     // 7.7.1 If one is empty, it is ignored (numb81 conf test)
     if (!digitGroupSepValue.empty() && !nDigitsPerGroupValue.empty())
     {
-        formatter->setGroupingUsed(true);
-        formatter->setGroupingSeparator(digitGroupSepValue);
-        formatter->setGroupingSize(DOMStringToUnsignedLong(nDigitsPerGroupValue));
+        const unsigned long     theGroupingSize =
+            DOMStringToUnsignedLong(nDigitsPerGroupValue);
+
+        // A grouping size that is not a positive number is ignored as well.
+        if (theGroupingSize > 0)
+        {
+            formatter->setGroupingUsed(true);
+            formatter->setGroupingSeparator(digitGroupSepValue);
+            formatter->setGroupingSize(theGroupingSize);
+        }
     }
 
     return formatter.releasePtr();
